@@ -86,22 +86,36 @@ impl Context for SlowContext {
 }
 
 fn sources() -> Vec<String> {
-    vec![
+    // the interpreter is ~1000x slower: same shapes, smaller sizes (still above the usual inline-buffer sizes 16 / 32)
+    let (deep1, deep2, lit, wide, chain) = if cfg!(miri) { (18, 12, 34, 17, 17) } else { (60, 48, 40, 24, 20) };
+    let mut v = vec![
         "a * 2 + twice(b) - len(s) + slow(a)".to_string(),
         "if(a > 2, (a, b, s, slow(b)), max(a, b, 3.5))".to_string(),
         // deep trees: many threads are deep inside the same shared tree at the same time
-        format!("{}a + 1{} * b", "(".repeat(60), ")".repeat(60)),
+        format!("{}a + 1{} * b", "(".repeat(deep1), ")".repeat(deep1)),
         "twice(twice(twice(slow(twice(a))))) + math::sqrt(b) ^ 2 - str::from(a) == s".to_string(),
         "(a, b, s, (a + b, s + s), typeof(s), nosuch(a))".to_string(),
+        // wide nodes: a 40-element literal tuple (a lookup table), a 24-element tuple of computed elements, a 20-element chain
+        format!("({})", (1..=lit).map(|i| i.to_string()).collect::<Vec<_>>().join(", ")),
+        format!("({})", (1..=wide).map(|i| format!("a + {} * twice(c)", i)).collect::<Vec<_>>().join(", ")),
+        format!("{}; a", (1..=chain).map(|i| format!("twice(a + {})", i)).collect::<Vec<_>>().join("; ")),
+        // overlapping calls of one slow shared function, several per evaluation
+        "slow(a) + slow(c) + slow(a) - slow(c)".to_string(),
         // long identifiers (hashing of long keys, namespaced function names)
         "a_rather_long_variable_name_beyond_sixteen_bytes + ns::a_long_function_name(a) * a - another::quite::long::name(b)".to_string(),
-        format!("{}a{} + slow(b) * c", "-(".repeat(48), ")".repeat(48)),
+        format!("{}a{} + slow(b) * c", "-(".repeat(deep2), ")".repeat(deep2)),
         // many distinct builtins in one evaluation, in two different orders (whatever is cached per context or per
         // tree about resolved builtins is replaced all the time). Only exactly-specified builtins: Miri deliberately
         // perturbs the last bits of sin/cos/exp/ln/pow…, so those would differ between two evaluations under Miri.
         "floor(b) + ceil(b) + round(b) + math::abs(a) + min(a, b) + max(a, b) + len(s) + bitand(a, 5) + bitor(a, 2) + bitxor(a, 9) + bitnot(a) + shl(1, 3) + shr(a, 1) + math::sqrt(b) + if(math::is_nan(b), 1, 2) + len(str::to_uppercase(s))".to_string(),
         "len(str::trim(s)) + shr(a, 1) + bitor(a, 2) + len(s) + max(a, b) + min(a, b) + math::abs(a) + round(b) + ceil(b) + floor(b) + len(str::to_lowercase(s)) + if(contains((a, b), a), 1, 2) + if(math::is_finite(b), 3, 4) + len(typeof(s)) + len(str::substring(s, 1)) + bitnot(a)".to_string(),
-    ]
+    ];
+    if cfg!(miri) {
+        // one of the two many-builtin expressions is enough for the interpreter, and the wide tuple covers wide nodes
+        v.pop();
+        v.retain(|s| !s.starts_with("twice(a + 1); "));
+    }
+    v
 }
 
 fn make_ctx(variant: usize) -> Ctx {
@@ -166,7 +180,7 @@ fn main() {
     let seed = num(4, 1);
 
     // expectations: sequential evaluation of freshly built trees on freshly built contexts
-    let nctx = 4usize;
+    let nctx = if cfg!(miri) { 2usize } else { 4usize };
     let mut expected: Vec<Vec<String>> = Vec::new();
     let srcs = sources();
     for src in &srcs {
@@ -179,6 +193,9 @@ fn main() {
         expected.push(row);
     }
 
+    // one context that lives through all rounds: its functions are called hundreds of thousands of times, from all
+    // threads, with overlapping calls (per-function or per-context state that creeps shows only here)
+    let persistent: Arc<Ctx> = Arc::new(make_ctx(0));
     let clock = Arc::new(AtomicU64::new(0));
     let mismatches = Arc::new(AtomicUsize::new(0));
     let total_evals = Arc::new(AtomicUsize::new(0));
@@ -191,7 +208,7 @@ fn main() {
         let ctxs: Arc<Vec<Shared>> = Arc::new(
             (0..nctx)
                 .map(|k| {
-                    if k < 2 {
+                    if k < nctx / 2 {
                         Shared::Plain(Arc::new(make_ctx(k)))
                     } else {
                         Shared::Slow(Arc::new(SlowContext {
@@ -206,6 +223,8 @@ fn main() {
         );
         let barrier = Arc::new(Barrier::new(threads));
         let expected = Arc::new(expected.clone());
+        let hot = srcs.iter().position(|s| s.starts_with("(1, 2, 3")).expect("the literal lookup table is one of the sources");
+        let slow_tree = srcs.iter().position(|s| s.starts_with("slow(a) + slow(c)")).expect("the slow-function expression is one of the sources");
         let mut handles = Vec::new();
         for tid in 0..threads {
             let trees = trees.clone();
@@ -214,6 +233,7 @@ fn main() {
             let expected = expected.clone();
             let mismatches = mismatches.clone();
             let total = total_evals.clone();
+            let persistent = persistent.clone();
             handles.push(std::thread::spawn(move || {
                 THREAD_ID.with(|t| t.set(tid + 1));
                 let mut r = Rng(seed ^ (round << 20) ^ ((tid as u64) << 40));
@@ -221,9 +241,28 @@ fn main() {
                 let mut out: Vec<String> = Vec::new();
                 // a context set up on this very thread (whatever a context remembers about the thread that built it
                 // must not leak into a shared tree)
-                let own_variant = tid % 4;
+                let own_variant = tid % nctx;
                 let own = make_ctx(own_variant);
+                // all threads hammer one wide shared tree and the long-lived context right after the barrier
+                for _ in 0..(if cfg!(miri) { 2 } else { 8 }) {
+                    let got = format!("{:?}", trees[hot].eval_with_context(&*persistent));
+                    total.fetch_add(1, Ordering::Relaxed);
+                    if got != expected[hot][0] {
+                        mismatches.fetch_add(1, Ordering::Relaxed);
+                        out.push(format!("MISMATCH thread {} round {} hot tree {} on the long-lived context: expected {} got {}", tid, round, hot, expected[hot][0], got));
+                        break;
+                    }
+                }
                 for e in 0..evals {
+                    if e % 4 == 1 {
+                        let ti = if e % 8 == 1 { slow_tree } else { (e + tid) % trees.len() };
+                        let got = format!("{:?}", trees[ti].eval_with_context(&*persistent));
+                        total.fetch_add(1, Ordering::Relaxed);
+                        if got != expected[ti][0] {
+                            mismatches.fetch_add(1, Ordering::Relaxed);
+                            out.push(format!("MISMATCH thread {} round {} tree {} on the long-lived context: expected {} got {}", tid, round, ti, expected[ti][0], got));
+                        }
+                    }
                     if e % 3 == 0 {
                         let ti = (e / 3 + tid) % trees.len();
                         let got = format!("{:?}", trees[ti].eval_with_context(&own));
@@ -248,6 +287,13 @@ fn main() {
                         if c != *trees[ti] || format!("{}", c) != format!("{}", trees[ti]) || c.iter_identifiers().count() != trees[ti].iter_identifiers().count() {
                             mismatches.fetch_add(1, Ordering::Relaxed);
                             out.push(format!("MISMATCH thread {}: clone / Display / iterators of shared tree {} differ", tid, ti));
+                        }
+                        // a clone taken while other threads are in the middle of evaluating the original is a complete,
+                        // independent tree
+                        let gc = eval_on(&c, &ctxs[ci]);
+                        if gc != expected[ti][ci] {
+                            mismatches.fetch_add(1, Ordering::Relaxed);
+                            out.push(format!("MISMATCH thread {}: a clone of shared tree {} evaluates to {} (expected {})", tid, ti, gc, expected[ti][ci]));
                         }
                         drop(c);
                         if let Shared::Plain(p) = &ctxs[ci] {
